@@ -27,6 +27,10 @@ def _coo_term(res):
     return f'({clist(rows)}, {clist([cz(x) for x in S.exact_ints(data)])}, {cnats(shape)})'
 
 
+class NonInteger(Exception):
+    pass
+
+
 def _run(ctx, key, what, data, fn, expect_error=None):
     """run the implementation; an exception on a valid input is a failing input (not hidden)"""
     try:
@@ -46,6 +50,54 @@ def _tables(b):
 
 
 # ------------------------------------------------------------------------------------------ correspondence
+
+def _one_case(ctx, env, bil, bil_dense, lin, lin_dense, fun, itp):
+    from skfem.assembly import BilinearForm, LinearForm, Functional
+    (rng, key, info, k2, same, ub, vb, wc, wterm, ub_t, vb_t, inp, nontriv, Nu, Nv, nt, NU) = (
+        env[n] for n in ('rng', 'key', 'info', 'k2', 'same', 'ub', 'vb', 'wc', 'wterm', 'ub_t', 'vb_t', 'inp', 'nontriv',
+                         'Nu', 'Nv', 'nt', 'NU'))
+    # --- BilinearForm._assemble: triplets
+    form = BilinearForm(S.py_form2(k2))
+    args = (ub,) if same else (ub, vb)
+    res = _run(ctx, key + ':bilinear', 'BilinearForm._assemble on a stub basis', info, lambda: form._assemble(*args, c=wc))
+    if res is not None:
+        bil.append((inp, '(Some ' + _coo_term(res) + ')', ('bil', nontriv, info)))
+        A = _run(ctx, key + ':assemble', 'BilinearForm.assemble on a stub basis', info, lambda: form.assemble(*args, c=wc))
+        if A is not None:
+            dense = A.toarray()
+            el = form.elemental(*args, c=wc).toarray()
+            if not np.array_equal(dense, el):
+                ctx.fail(key + ':toarray', 'COOData.toarray differs from assemble().toarray()', info)
+            rows = clist([clist([cz(x) for x in S.exact_ints(r)]) for r in dense])
+            bil_dense.append((inp, f'(Some {rows})', ('bild', nontriv, info)))
+    # --- LinearForm
+    k1 = [rng.randint(-3, 3) for _ in range(3)]
+    lform = LinearForm(S.py_form1(k1))
+    inp1 = f'({clist([cz(x) for x in k1])}, {wterm}, {vb_t})'
+    res = _run(ctx, key + ':linear', 'LinearForm._assemble on a stub basis', info, lambda: lform._assemble(vb, c=wc))
+    if res is not None:
+        lin.append((inp1, '(Some ' + _coo_term(res) + ')', ('lin', Nv >= 2 and nt >= 2, info)))
+        b = _run(ctx, key + ':lassemble', 'LinearForm.assemble on a stub basis', info, lambda: lform.assemble(vb, c=wc))
+        if b is not None:
+            lin_dense.append((inp1, '(Some ' + clist([cz(x) for x in S.exact_ints(b)]) + ')', ('lind', Nv >= 2 and nt >= 2, info)))
+    # --- Functional
+    k0 = [rng.randint(-3, 3) for _ in range(3)]
+    fform = Functional(S.py_form0(k0))
+    el = _run(ctx, key + ':functional', 'Functional.elemental on a stub basis', info, lambda: fform.elemental(ub, c=wc))
+    tot = _run(ctx, key + ':functional-assemble', 'Functional.assemble on a stub basis', info, lambda: fform.assemble(ub, c=wc))
+    if el is not None and tot is not None:
+        fun.append((f'({clist([cz(x) for x in k0])}, {wterm}, {ub_t})',
+                    f'({clist([cz(x) for x in S.exact_ints(el)])}, {cz(S.exact_ints(tot)[0])})', ('fun', nt >= 2, info)))
+    # --- interpolate
+    if Nu >= 1:
+        wv = [rng.randint(-3, 3) for _ in range(NU)]
+        f = _run(ctx, key + ':interpolate', 'AbstractBasis.interpolate on a stub basis', info,
+                 lambda: ub.interpolate(np.array(wv, dtype=float)))
+        if f is not None:
+            val = clist([clist([f'({cz(a)}, {cz(b)})' for a, b in zip(S.exact_ints(np.array(f)[e]), S.exact_ints(f.grad[0][e]))])
+                         for e in range(nt)])
+            itp.append((f'({clist([cz(x) for x in wv])}, {ub_t})', val, ('itp', Nu >= 2 and nt >= 1, info)))
+
 
 def correspond(ctx, gen_ok):
     from skfem.assembly import BilinearForm, LinearForm, Functional
@@ -80,7 +132,8 @@ def correspond(ctx, gen_ok):
         k2 = [rng.randint(-3, 3) for _ in range(4)]
         same = (c % 7 == 3)            # vbasis omitted: the default "vbasis = ubasis"
         info = {'Nu': Nu, 'Nv': Nv, 'nt': nt, 'nq': nq, 'u': _tables(ub), 'v': None if same else _tables(vb), 'k': k2, 'w': wt}
-        key = f'stub:Nu={Nu}:Nv={Nv}:nt={nt}:nq={nq}:case={c}'
+        key = 'stub'
+        info['case'] = c
         ctx.hist('Nu,Nv', (Nu, Nv))
         ctx.hist('nt', nt)
         wterm = f'(tab2 {S.cz2(wt)})'
@@ -88,47 +141,10 @@ def correspond(ctx, gen_ok):
         vopt = 'None' if same else f'(Some {vb_t})'
         inp = f'({clist([cz(x) for x in k2])}, {wterm}, {ub_t}, {vopt})'
         nontriv = Nu != Nv and nt >= 2 and Nu >= 1 and Nv >= 1 and not same
-        # --- BilinearForm._assemble: triplets
-        form = BilinearForm(S.py_form2(k2))
-        args = (ub,) if same else (ub, vb)
-        res = _run(ctx, key + ':bilinear', 'BilinearForm._assemble on a stub basis', info, lambda: form._assemble(*args, c=wc))
-        if res is not None:
-            bil.append((inp, '(Some ' + _coo_term(res) + ')', ('bil', nontriv, info)))
-            A = _run(ctx, key + ':assemble', 'BilinearForm.assemble on a stub basis', info, lambda: form.assemble(*args, c=wc))
-            if A is not None:
-                dense = A.toarray()
-                el = form.elemental(*args, c=wc).toarray()
-                if not np.array_equal(dense, el):
-                    ctx.fail(key + ':toarray', 'COOData.toarray differs from assemble().toarray()', info)
-                rows = clist([clist([cz(x) for x in S.exact_ints(r)]) for r in dense])
-                bil_dense.append((inp, f'(Some {rows})', ('bild', nontriv, info)))
-        # --- LinearForm
-        k1 = [rng.randint(-3, 3) for _ in range(3)]
-        lform = LinearForm(S.py_form1(k1))
-        inp1 = f'({clist([cz(x) for x in k1])}, {wterm}, {vb_t})'
-        res = _run(ctx, key + ':linear', 'LinearForm._assemble on a stub basis', info, lambda: lform._assemble(vb, c=wc))
-        if res is not None:
-            lin.append((inp1, '(Some ' + _coo_term(res) + ')', ('lin', Nv >= 2 and nt >= 2, info)))
-            b = _run(ctx, key + ':lassemble', 'LinearForm.assemble on a stub basis', info, lambda: lform.assemble(vb, c=wc))
-            if b is not None:
-                lin_dense.append((inp1, '(Some ' + clist([cz(x) for x in S.exact_ints(b)]) + ')', ('lind', Nv >= 2 and nt >= 2, info)))
-        # --- Functional
-        k0 = [rng.randint(-3, 3) for _ in range(3)]
-        fform = Functional(S.py_form0(k0))
-        el = _run(ctx, key + ':functional', 'Functional.elemental on a stub basis', info, lambda: fform.elemental(ub, c=wc))
-        tot = _run(ctx, key + ':functional-assemble', 'Functional.assemble on a stub basis', info, lambda: fform.assemble(ub, c=wc))
-        if el is not None and tot is not None:
-            fun.append((f'({clist([cz(x) for x in k0])}, {wterm}, {ub_t})',
-                        f'({clist([cz(x) for x in S.exact_ints(el)])}, {cz(S.exact_ints(tot)[0])})', ('fun', nt >= 2, info)))
-        # --- interpolate
-        if Nu >= 1:
-            wv = [rng.randint(-3, 3) for _ in range(NU)]
-            f = _run(ctx, key + ':interpolate', 'AbstractBasis.interpolate on a stub basis', info,
-                     lambda: ub.interpolate(np.array(wv, dtype=float)))
-            if f is not None:
-                val = clist([clist([f'({cz(a)}, {cz(b)})' for a, b in zip(S.exact_ints(np.array(f)[e]), S.exact_ints(f.grad[0][e]))])
-                             for e in range(nt)])
-                itp.append((f'({clist([cz(x) for x in wv])}, {ub_t})', val, ('itp', Nu >= 2 and nt >= 1, info)))
+        try:
+            _one_case(ctx, locals(), bil, bil_dense, lin, lin_dense, fun, itp)
+        except ValueError as e:      # S.exact_ints: the implementation returned a non-integer on integer tables
+            ctx.fail(key + ':non-integer', f'stub computation is not exact: {e}'[:300], info)
     # --- inputs the implementation rejects: the model must reject them too (None)
     for c in range(ctx.n(8, 30)):
         Nu, Nv, nq = rng.randint(1, 3), rng.randint(1, 3), rng.randint(1, 2)
@@ -145,7 +161,7 @@ def correspond(ctx, gen_ok):
         wt = [[1] * nq for _ in range(nt)]
         k2 = [1, 2, 3, 4]
         info = {'kind': ['quadrature mismatch', 'cell-count mismatch'][kind], 'u': _tables(ub), 'v': _tables(vb)}
-        key = f'stub-reject:{kind}:case={c}'
+        key = f'stub-reject:{kind}'
         _run(ctx, key, 'BilinearForm._assemble must reject ' + info['kind'], info,
              lambda: BilinearForm(S.py_form2(k2))._assemble(ub, vb, c=DiscreteField(np.array(wt, dtype=float))), expect_error=ValueError)
         bil.append((f'({clist([cz(x) for x in k2])}, (tab2 {S.cz2(wt)}), {S.coq_basis(ub.tables)}, (Some {S.coq_basis(vb.tables)}))',
@@ -174,13 +190,43 @@ Definition run_itp (c : list Z * basis Z VZ) :=
   map (fun e => map (fun q => interp Z 0%Z VZ vaddZ vscaleZ b (vecZ wv) e q) (seq 0 (bnq b))) (seq 0 (bnelems b)).
 Definition zpair_eqb (a b : Z * Z) := Z.eqb (fst a) (fst b) && Z.eqb (snd a) (snd b).
 '''
-    nt_ = (lambda r: r[1])
-    ctx.corr('bilinear_triplets', S.COQ_IMPORTS, 'run_bil', '(option_eqb out_eqb)', bil, per_file=60, defs=defs, nontrivial=nt_)
-    ctx.corr('bilinear_dense', S.COQ_IMPORTS, 'run_bil_dense', '(option_eqb zss_eqb)', bil_dense, per_file=60, defs=defs, nontrivial=nt_)
-    ctx.corr('linear_triplets', S.COQ_IMPORTS, 'run_lin', '(option_eqb out_eqb)', lin, per_file=100, defs=defs, nontrivial=nt_)
-    ctx.corr('linear_dense', S.COQ_IMPORTS, 'run_lin_dense', '(option_eqb zs_eqb)', lin_dense, per_file=100, defs=defs, nontrivial=nt_)
-    ctx.corr('functional', S.COQ_IMPORTS, 'run_fun', '(pair_eqb zs_eqb Z.eqb)', fun, per_file=100, defs=defs, nontrivial=nt_)
-    ctx.corr('interpolate', S.COQ_IMPORTS, 'run_itp', '(list_eqb (list_eqb zpair_eqb))', itp, per_file=100, defs=defs, nontrivial=nt_)
+    defs += '''
+Inductive cin :=
+| CBil (c : list Z * (nat -> nat -> Z) * basis Z VZ * option (basis Z VZ))
+| CBilD (c : list Z * (nat -> nat -> Z) * basis Z VZ * option (basis Z VZ))
+| CLin (c : list Z * (nat -> nat -> Z) * basis Z VZ)
+| CLinD (c : list Z * (nat -> nat -> Z) * basis Z VZ)
+| CFun (c : list Z * (nat -> nat -> Z) * basis Z VZ)
+| CItp (c : list Z * basis Z VZ).
+Inductive cout :=
+| OCoo (o : option (list (list nat) * list Z * list nat))
+| ODense (o : option (list (list Z)))
+| OVec (o : option (list Z))
+| OFun (o : list Z * Z)
+| OItp (o : list (list (Z * Z))).
+Definition run_any (c : cin) : cout :=
+  match c with
+  | CBil x => OCoo (run_bil x) | CBilD x => ODense (run_bil_dense x) | CLin x => OCoo (run_lin x)
+  | CLinD x => OVec (run_lin_dense x) | CFun x => OFun (run_fun x) | CItp x => OItp (run_itp x)
+  end.
+Definition cout_eqb (a b : cout) : bool :=
+  match a, b with
+  | OCoo x, OCoo y => option_eqb out_eqb x y
+  | ODense x, ODense y => option_eqb zss_eqb x y
+  | OVec x, OVec y => option_eqb zs_eqb x y
+  | OFun x, OFun y => pair_eqb zs_eqb Z.eqb x y
+  | OItp x, OItp y => list_eqb (list_eqb zpair_eqb) x y
+  | _, _ => false
+  end.
+'''
+    allc = ([(f'(CBil {i})', f'(OCoo {o})', r) for i, o, r in bil] + [(f'(CBilD {i})', f'(ODense {o})', r) for i, o, r in bil_dense]
+            + [(f'(CLin {i})', f'(OCoo {o})', r) for i, o, r in lin] + [(f'(CLinD {i})', f'(OVec {o})', r) for i, o, r in lin_dense]
+            + [(f'(CFun {i})', f'(OFun {o})', r) for i, o, r in fun] + [(f'(CItp {i})', f'(OItp {o})', r) for i, o, r in itp])
+    for r in allc:
+        ctx.hist('stub correspondence kind', r[2][0])
+    bad = ctx.corr('stub_assembly', S.COQ_IMPORTS, 'run_any', 'cout_eqb', allc, per_file=40, defs=defs, nontrivial=lambda r: r[1])
+    for i in (bad or [])[:3]:
+        ctx.log('disagreeing case:', allc[i][2][0], str(allc[i][2][2])[:300])
     if bil:
         ctx.sample({'kind': 'stub bilinear triplets (input term, implementation output)', 'input': bil[0][0][:600], 'output': bil[0][1][:400]})
 
@@ -238,6 +284,9 @@ def run(ctx):
                        'subsets with repeats, omitted vbasis, rejected inputs; non-trivial = Nu<>Nv, nt>=2, both >=1. '
                        'oracle: see extra.oracle; non-trivial = trial<>test or non-symmetric integrand on >=2 cells; '
                        'distinct by content hash')
+    # the box is shared: at most 4 coqc at a time, generous per-file timeout
+    _many = type(ctx).coqc_many
+    ctx.coqc_many = lambda rels, timeout=300, jobs=None: _many(ctx, rels, max(timeout, 900), jobs=4)
     ctx.ensure_static()
     try:
         ctx.write_gen('C01Gen', c01_translate.translate())
